@@ -153,7 +153,9 @@ def handleCl (toks impl : List String) : String :=
         else if cname == "gopro.laptimes" then
           match (field impl "hits").bind nat?, (field impl "want").bind int? with
           | some h, some w =>
-            if (h : Int) ≠ w then s!"VIOL clause=cl.laptimes hits={h} want={w}"
+            -- readings inside the guard band around the tolerance boundary may go either way
+            let whi : Int := ((field impl "wanthi").bind int?).getD w
+            if (h : Int) < w ∨ (h : Int) > whi then s!"VIOL clause=cl.laptimes hits={h} want={w}..{whi}"
             else if h = 0 ∧ exit = 0 then "VIOL clause=cl.exit_status why=no-laps"
             else s!"OK nt={if h > 0 then 1 else 0} cls=laptimes"
           | _, _ => "BAD"
